@@ -131,8 +131,8 @@ def harness_Sy(eng, ctx):
         eng.fail_exception(e)
         return
     for (o, s_, tag) in ((obj, sd, 'first'), (second, ctx.get('twice') and sd2, 'second object built in the same process')):
-        if o is None:
-            continue
+        if o is None or (second is not None and o is obj):
+            continue            # the first object of the pair is the subject of the single-object harness
         knots = list(o.zeta_knots_mm)
         vals = list(o.sy_knots)
         eng.prove(len(knots) == 201 and len(vals) == 201, 'C16: 201 tabulated levels')
@@ -149,9 +149,11 @@ def harness_Sy(eng, ctx):
                 continue
             if r200 is None:
                 r200 = reference_table(eng, s_, theta_s, b, psi_s, 200)
-            eng.prove(z3.Or(symx.zbool(a == r), symx.zbool(a == r200[i])),
-                      'C16: tabulated specific yield = Dettmann-Bechtold soil + microtopography profile',
-                      detail='level index %d (%s)' % (i, tag))
+            ok = eng.prove(z3.Or(symx.zbool(a == r), symx.zbool(a == r200[i])),
+                           'C16: tabulated specific yield = Dettmann-Bechtold soil + microtopography profile',
+                           detail='level index %d (%s)' % (i, tag))
+            if ok is not True:
+                break       # one level that is not the profile decides the path; the terms are large
         # linear in between, constant beyond: the order-1 spline through the table
         probe = knots[100] + Fraction(5, 2)
         want = vals[100] + (vals[101] - vals[100]) * Fraction(1, 4)
@@ -221,17 +223,13 @@ class C16(Check):
         self.absorb(exp, need_paths=2)
         import multiprocessing as mp
         tasks = []
-        for ps in ([] if quick else psis):
+        for ps in psis:
             tasks.append(('peatclsm_specific_yield[psi_s=%s]' % ps, harness_Sy, {'psi_s': ps, 'symbolic': True}))
-        if not quick:
-            tasks.append(('peatclsm_specific_yield_twice[psi_s=-0.024]', harness_Sy, {'psi_s': '-0.024', 'symbolic': False, 'twice': True}))
-            with mp.get_context('fork').Pool(min(8, len(tasks))) as pool:
-                for exp in pool.imap_unordered(_task, tasks):
-                    self.absorb(exp, need_paths=1)
-        else:
-            self.outside.append('QUICK TIER: the symbolic specific-yield table (80802 Campbell cells per run, ~10 min of z3 term construction) is run in the '
-                                'thorough tier only; quick decides the transmissivity symbolically and compares the real specific-yield table with the '
-                                'transcription numerically (witness, not a solver verdict)')
+        tasks.append(('peatclsm_specific_yield_twice[psi_s=-0.024]', harness_Sy, {'psi_s': '-0.024', 'symbolic': False, 'twice': True}))
+        with mp.get_context('fork').Pool(min(8, len(tasks))) as pool:
+            for exp in pool.imap_unordered(_task, tasks):
+                self.absorb(exp, need_paths=1)
+        if quick:
             # second object in the same process with another sd (witness)
             real = loader.real_module('spowtd.specific_yield')
             import numpy as np
